@@ -180,15 +180,20 @@ impl<'a, D: DiffHook + 'a> DiffHook for &'a mut D {
 pub struct NoFinishHook<D: DiffHook>(D);
 //@@ end
 
-//@@ item src/algorithms/hook.rs :: ^impl<D: DiffHook> NoFinishHook<D>
+//@@ item src/algorithms/hook.rs :: ^impl<D: DiffHook> NoFinishHook<D> rw=R0
 impl<D: DiffHook> NoFinishHook<D> {
+    /*@*/ pub closed spec fn inner(&self) -> D { self.0 }
     /// Wraps another hook.
-    pub fn new(d: D) -> NoFinishHook<D> {
+    pub fn new(d: D) -> (res: NoFinishHook<D>)
+    /*@*/     ensures res.inner() == d,
+    {
         NoFinishHook(d)
     }
 
     /// Extracts the inner hook.
-    pub fn into_inner(self) -> D {
+    pub fn into_inner(self) -> (res: D)
+    /*@*/     ensures res == self.inner(),
+    {
         self.0
     }
 }
@@ -197,15 +202,15 @@ impl<D: DiffHook> NoFinishHook<D> {
 //@@ item src/algorithms/hook.rs :: ^impl<D: DiffHook> DiffHook for NoFinishHook<D> rw=R0
 impl<D: DiffHook> DiffHook for NoFinishHook<D> {
     type Error = D::Error;
-    /*@*/ closed spec fn trace(&self) -> Seq<Ev> { self.0.trace() }
-    /*@*/ closed spec fn failed(&self) -> bool { self.0.failed() }
-    /*@*/ closed spec fn relies(&self) -> bool { self.0.relies() }
-    /*@*/ closed spec fn rely_rel(&self) -> Rel { self.0.rely_rel() }
-    /*@*/ closed spec fn rely_st(&self) -> St { self.0.rely_st() }
-    /*@*/ closed spec fn observes_finish() -> bool { false }
-    /*@*/ closed spec fn last_err(&self) -> Option<Self::Error> { self.0.last_err() }
-    /*@*/ closed spec fn replace_is_atomic() -> bool { D::replace_is_atomic() }
-    /*@*/ closed spec fn accepts_replace(&self) -> bool { self.0.accepts_replace() }
+    /*@*/ open spec fn trace(&self) -> Seq<Ev> { self.inner().trace() }
+    /*@*/ open spec fn failed(&self) -> bool { self.inner().failed() }
+    /*@*/ open spec fn relies(&self) -> bool { self.inner().relies() }
+    /*@*/ open spec fn rely_rel(&self) -> Rel { self.inner().rely_rel() }
+    /*@*/ open spec fn rely_st(&self) -> St { self.inner().rely_st() }
+    /*@*/ open spec fn observes_finish() -> bool { false }
+    /*@*/ open spec fn last_err(&self) -> Option<Self::Error> { self.inner().last_err() }
+    /*@*/ open spec fn replace_is_atomic() -> bool { D::replace_is_atomic() }
+    /*@*/ open spec fn accepts_replace(&self) -> bool { self.inner().accepts_replace() }
 
     #[inline(always)]
     fn equal(&mut self, old_index: usize, new_index: usize, len: usize) -> (res: Result<(), Self::Error>)
